@@ -75,6 +75,7 @@ StepChecks(E2, XD2, SN, r, R, R2, o, forced) ==
      <<"C04_Between", C04_Between(E2, R2)>>,
      <<"C04_Stable", C04_Stable(R, R2)>>,
      <<"C04_NoResurrect", C04_NoResurrect(R, R2)>>,
+     <<"C04_AppearsIff", C04_AppearsIff(E2, R2)>>,
      <<"C01_DepClosed", C01_DepClosed(E2, R2)>>,
      <<"C05_DeadExact", C05_DeadExact(E2, R2)>>,
      <<"C05_CausalOrder", C05_CausalOrder(E2, SN, R2)>>,
